@@ -133,6 +133,7 @@ def plain_twin(b):
                    compute_needed=cp(j.compute_needed), ram_needed=cp(j.ram_needed))
     jobs = [pj("p video", b["video_job"], p_cloud), pj("p web", b["webapp_job"], p_cloud), pj("p genai", b["genai_job"], p_gpu, GpuJob)]
     if "plain_job" in b.obj: jobs.append(pj("p plain", b["plain_job"], p_cloud))
+    if "video_job_b" in b.obj: jobs.append(pj("p video b", b["video_job_b"], p_cloud))
     step = UsageJourneyStep("p step", user_time_spent=cp(b["step"].user_time_spent), jobs=jobs)
     uj = UsageJourney("p journey", uj_steps=[step])
     up = b["up"]
@@ -258,6 +259,7 @@ def run(tier, seed, procs=16):
     for p, i in INSTANCES[:2 if tier == "quick" else 6]: items.append(("faithful", {"cloud_provider": p, "instance_type": i}, None))
     items.append(("faithful", {"with_plain_job": False}, None))
     items.append(("faithful", {"cloud_on_premise_fixed": 40}, None))
+    items.append(("faithful", {"twin_video_job": True}, None))      # two service jobs of one server carrying the same name
     Qv = lambda v, un: (lambda: SourceValue(v * un))
     items += [
         ("refresh", {}, ("video_job", "resolution", lambda: SourceObject("4K (3840 x 2160)"), {"video_resolution": "4K (3840 x 2160)"})),
